@@ -461,10 +461,10 @@ def main(argv):
     report.rule = (
         "model correspondence: the real glue_together._copy_svg order construction (fake fonts, reorder_glyphs captured) on "
         "random target orders / donor SVG ranges incl. the IndexError case, and the {gid:05d} naming, against the Coq model; "
-        "end to end: fonts nanoemoji emits (COLRv0, COLRv1, picosvg, untouchedsvg; sequences; kept or stripped names) and "
+        "end to end: fonts nanoemoji emits (glyf COLRv0/COLRv1, CFF and CFF2 COLRv1, picosvg, untouchedsvg; sequences; kept or stripped names) and "
         "hand-made-style COLRv0/v1 fonts with kerning/mark/ligature lookups and extra palettes, through the real "
         "`python -m nanoemoji.maximum_color` CLI x {--bitmaps, --colr_version, --keep_glyph_names}; input vs output "
-        "name-keyed (cmap, hmtx, glyf, GSUB/GPOS/GDEF meaning, name/OS2/hhea, original colour table, CPAL), same colour "
+        "name-keyed (cmap, hmtx, glyf / CFF / CFF2 outlines, GSUB/GPOS/GDEF meaning, name/OS2/hhea, original colour table, CPAL), same colour "
         "glyph set in every colour table, COLR picture vs OT-SVG picture per colour glyph, structural validity (C07 "
         "predicates in Coq), stripped build = kept build minus names"
     )
